@@ -235,6 +235,15 @@ def main(argv=None):
         if any(f"/{k}#" in oid for k in getattr(pack, "LOCK_OPTIONAL_KINDS", ())) and \
                 any(o_["id"].startswith(oid.rsplit("/", 1)[0] + "/") for o_ in obligations):
             continue
+        # pack option LOCK_FILE_COVERAGE (e.g. {"decreases#while-": "::*/decreases#for-loops"}): obligations of that kind are ENUMERATED from the source
+        # of a file (one per construct found by a scanner), and the scanner's own per-file obligation -- id of the same file containing
+        # the given marker -- is generated in this run: the construct is no longer in the code (loop moved into a helper, `while`
+        # rewritten as `for`), the scan that would have listed it ran.
+        cov = getattr(pack, "LOCK_FILE_COVERAGE", None) or {}
+        file_prefix = oid.split("::")[0] + "::"
+        if any(f"/{k}" in oid and any(o_["id"].startswith(file_prefix) and mk in o_["id"] and o_["status"] != "unknown" for o_ in obligations)
+               for k, mk in cov.items()):
+            continue
         if any(fn.split("::")[-1] in m and fn.split("::")[0].split("/")[-1] in m for m in missing_fn_prefixes):
             continue
         really_missing.append(oid)
